@@ -70,7 +70,7 @@ _public_ ssize_t m_mod_unstash(m_mod_t *mod, size_t len) {
     M_ALLOC_ASSERT(unstashed);
 
     m_itr_foreach(mod->stashed, {
-        if (m_idx + 1 == len) {
+        if (m_idx == len) {
             memhook._free(m_itr);
             break;
         }
